@@ -1,4 +1,6 @@
 import Driver.C20
+import Driver.C17
+import Driver.C03
 import Driver.C15
 import Driver.C16
 import Driver.C12
@@ -14,6 +16,8 @@ in `St`. -/
 open Driver
 
 structure St where
+  c17 : C17.State := {}
+  c03 : CCVerif.Types.Ctx := {}
   c15 : C15.State := {}
   c14 : C14.State := {}
   c09 : C09.State := {}
@@ -24,6 +28,8 @@ structure St where
 def step (st : St) (line : String) : St × String :=
   match (line.trimAscii.toString.splitOn " ").filter (· ≠ "") with
   | "c20" :: rest => (st, C20.handle rest)
+  | "c17" :: rest => let (s17, o) := C17.step st.c17 rest; ({ st with c17 := s17 }, o)
+  | "c03" :: rest => let (s, o) := C03.step st.c03 rest; ({ st with c03 := s }, o)
   | "c15" :: rest => let (s', o) := C15.step st.c15 rest; ({ st with c15 := s' }, o)
   | "c16" :: rest => (st, C16.handle rest)
   | "c12" :: rest => (st, C12.handle rest)
